@@ -426,8 +426,8 @@ def run_c13(ctx):
     states = trans = 0
     all_invs = list(fam.other_invs) + list(fam.prop_invs)
 
-    # 1. the repaired mechanism (membership by MAC) satisfies every property-level predicate on the whole graph
-    r = model_check(ctx, fam, base, "full_byMac_loops%d" % (2 if quick else 3), True, all_invs, 1500, MaxLoops=2 if quick else 3)
+    # 1. the mechanism of the code (membership by MAC) satisfies every property-level predicate on the whole graph
+    r = model_check(ctx, fam, base, "full_byMac_loops2", True, all_invs, 1500, MaxLoops=2)
     if not r.ok:
         raise vlib.InfraError("ArpHuntMC (ByMac): model-level failure violated=%s error=%s\n%s" % (r.violated, r.error, r.out[-2500:]))
     states, trans = states + r.distinct, trans + r.generated
@@ -435,9 +435,15 @@ def run_c13(ctx):
     if not r.ok:
         raise vlib.InfraError("ArpHuntMC probe config: model-level failure violated=%s\n%s" % (r.violated, r.out[-2500:]))
     states, trans = states + r.distinct, trans + r.generated
+    if not quick:
+        # three loop instances (Start/Stop/Start leaves two loops for one MAC, plus a third target), one class of received packet
+        r = model_check(ctx, fam, base, "full_byMac_loops3", True, all_invs, 2400, MaxLoops=3, RecvOps="{1}", RecvSI="{a1}", RecvTI="{routerip}")
+        if not r.ok:
+            raise vlib.InfraError("ArpHuntMC (ByMac, 3 loops): model-level failure violated=%s error=%s\n%s" % (r.violated, r.error, r.out[-2500:]))
+        states, trans = states + r.distinct, trans + r.generated
     # 2. the mechanism with the deviation fixed in 0f0beaf (membership by IP): everything but the undo holds ...
     invs_no_undo = [i for i in all_invs if i not in ("C13_UndoWithinOneCycle", "LoopServesOwnMac")]
-    r = model_check(ctx, fam, base, "full_byIP_loops%d" % (2 if quick else 3), False, invs_no_undo, 1500, MaxLoops=2 if quick else 3)
+    r = model_check(ctx, fam, base, "full_byIP_loops2", False, invs_no_undo, 1500, MaxLoops=2)
     if not r.ok:
         raise vlib.InfraError("ArpHuntMC (ByIP): model-level failure violated=%s error=%s\n%s" % (r.violated, r.error, r.out[-2500:]))
     states, trans = states + r.distinct, trans + r.generated
